@@ -525,6 +525,10 @@ Apply(op, St) ==
   ELSE IF op.a = "Merge" THEN
      IF ~IsModel(St.m[op.t]) \/ op.t = s \/ St.helper[s] # 0 \/ St.helper[op.t] # 0 THEN Skip(St)
      ELSE Lift(St, s, A_Merge(St.m[s], St.m[op.t]))
+  \* renaming onto an identifier that some open context will bring back on exit is a clash of the user's
+  \* making (the rename is not reversible): out of scope
+  ELSE IF op.a = "RenameReaction" /\ (\E k \in 1..Len(St.ctx[s]) : op.new \in St.ctx[s][k].rxns) THEN Skip(St)
+  ELSE IF op.a = "RenameMetabolite" /\ (\E k \in 1..Len(St.ctx[s]) : op.new \in St.ctx[s][k].mets) THEN Skip(St)
   ELSE IF op.a \in NotContextAware /\ Len(St.ctx[s]) > 0
        THEN Lift([St EXCEPT !.taint[s] = TRUE], s, ContentOp(op, St.m[s]))
   ELSE IF op.a = "SwitchSolver" /\ Len(St.ctx[s]) > 0 /\ op.solver # St.m[s].solver
